@@ -105,6 +105,52 @@ def check_iteration(s, cls, train_name):
         raise AnalysisError(f"{con}: expected single- and multi-environment cases")
 
 
+def check_sac_gates(s, rule="C10.6", necessary=None):
+    """SAC.sac_train: the actor (and, with autotune, the temperature) is replaced exactly under `iteration_count % policy_frequency == 0`
+    and returned unchanged otherwise; without autotune the temperature is returned unchanged."""
+    self_ = ("param", "self")
+    b = s.builder(inline=set())
+    nz = Normalizer(b)
+    con7 = "SAC.sac_train"
+    loc7 = s.loc("SAC", "sac_train")
+    gate = nz.canon(s.ref(b, "iteration_count % self.policy_frequency == 0", {"iteration_count": ("param", "iteration_count"), "self": self_}))
+    ngate = nz.boolean(("un", "Invert", s.ref(b, "iteration_count % self.policy_frequency == 0", {"iteration_count": ("param", "iteration_count"), "self": self_})))
+    seen = set()
+    for p in live(s.paths(b, "SAC", "sac_train")):
+        auto = any(v for t, v in p.conds if t == ("attr", self_, "autotune"))
+        seen.add(auto)
+        tag = f"[autotune={auto}]"
+        from .util import tuple_elems
+        ret = tuple_elems(b, p.ret)
+        if ret is None or len(ret) != 8:
+            raise AnalysisError(f"{con7}: expected an 8-tuple return")
+        names = ["policy", "opt_state", "qf1", "qf2", "q_opt_state", "log_alpha", "alpha_opt_state", "log"]
+        out = dict(zip(names, ret))
+
+        def gated(nm):
+            c = nz.canon(out[nm])
+            if not (isinstance(c, tuple) and c and c[0] == "ite"):
+                return False, show_term(c, 200)
+            old = ("p", nm)
+            ok_ = (c[1] == gate and c[3] == old and c[2] != old) or (c[1] == ngate and c[2] == old and c[3] != old)
+            return ok_, show_term(c, 300)
+
+        for nm in ("policy", "opt_state"):
+            ok_, det = gated(nm)
+            s.ob(rule, con7 + tag, ok_, f"{nm}' == cond(iteration_count % policy_frequency == 0, updated, unchanged input)", loc7, key=f"gate-{nm}",
+                 detail=det, necessary_for="the actor changes only on every policy_frequency-th iteration")
+        for nm in ("log_alpha", "alpha_opt_state"):
+            if auto:
+                ok_, det = gated(nm)
+                s.ob(rule, con7 + tag, ok_, f"{nm}' == cond(gate, updated, unchanged input)", loc7, key=f"gate-{nm}", detail=det,
+                     necessary_for="the temperature changes only on every policy_frequency-th iteration")
+            else:
+                s.ob(rule, con7 + tag, out[nm] == ("param", nm), f"without autotune {nm} is returned unchanged", loc7, key=f"frozen-{nm}",
+                     detail=show(out[nm], maxlen=160), necessary_for="the temperature changes only when autotuning is on")
+    if seen != {True, False}:
+        raise AnalysisError(f"{con7}: expected both autotune cases")
+
+
 def check(s):
     P = s.prog
     self_ = ("param", "self")
@@ -252,46 +298,7 @@ out = eqx.combine(jax.tree.map(lambda o, t: self.tau * o + (1 - self.tau) * t, o
         for an in ("qf1", "qf2", "qf1_target", "qf2_target", "q_opt_state", "log_alpha", "alpha_opt_state", "target_entropy", "iteration_count"):
             s.ob("C10.6", conI, m.get(an) == ("attr", state, an), f"sac_train parameter `{an}` receives state.{an}", s.loc("SAC", "iteration"),
                  key=f"arg-{an}", detail=show(m.get(an, NONE), maxlen=100))
-    b = s.builder(inline=set())
-    nz = Normalizer(b)
-    con7 = "SAC.sac_train"
-    loc7 = s.loc("SAC", "sac_train")
-    gate = nz.canon(s.ref(b, "iteration_count % self.policy_frequency == 0", {"iteration_count": ("param", "iteration_count"), "self": self_}))
-    ngate = nz.boolean(("un", "Invert", s.ref(b, "iteration_count % self.policy_frequency == 0", {"iteration_count": ("param", "iteration_count"), "self": self_})))
-    seen = set()
-    for p in live(s.paths(b, "SAC", "sac_train")):
-        auto = any(v for t, v in p.conds if t == ("attr", self_, "autotune"))
-        seen.add(auto)
-        tag = f"[autotune={auto}]"
-        from .util import tuple_elems
-        ret = tuple_elems(b, p.ret)
-        if ret is None or len(ret) != 8:
-            raise AnalysisError(f"{con7}: expected an 8-tuple return")
-        names = ["policy", "opt_state", "qf1", "qf2", "q_opt_state", "log_alpha", "alpha_opt_state", "log"]
-        out = dict(zip(names, ret))
-
-        def gated(nm):
-            c = nz.canon(out[nm])
-            if not (isinstance(c, tuple) and c and c[0] == "ite"):
-                return False, show_term(c, 200)
-            old = ("p", nm)
-            ok_ = (c[1] == gate and c[3] == old and c[2] != old) or (c[1] == ngate and c[2] == old and c[3] != old)
-            return ok_, show_term(c, 300)
-
-        for nm in ("policy", "opt_state"):
-            ok_, det = gated(nm)
-            s.ob("C10.6", con7 + tag, ok_, f"{nm}' == cond(iteration_count % policy_frequency == 0, updated, unchanged input)", loc7, key=f"gate-{nm}",
-                 detail=det, necessary_for="the actor changes only on every policy_frequency-th iteration")
-        for nm in ("log_alpha", "alpha_opt_state"):
-            if auto:
-                ok_, det = gated(nm)
-                s.ob("C10.6", con7 + tag, ok_, f"{nm}' == cond(gate, updated, unchanged input)", loc7, key=f"gate-{nm}", detail=det,
-                     necessary_for="the temperature changes only on every policy_frequency-th iteration")
-            else:
-                s.ob("C10.6", con7 + tag, out[nm] == ("param", nm), f"without autotune {nm} is returned unchanged", loc7, key=f"frozen-{nm}",
-                     detail=show(out[nm], maxlen=160), necessary_for="the temperature changes only when autotuning is on")
-    if seen != {True, False}:
-        raise AnalysisError(f"{con7}: expected both autotune cases")
+    check_sac_gates(s, "C10.6")
     # C10.7 configuration wiring: update interval, tau, policy_frequency, num_envs, num_steps, learning_starts ... are the configured ones
     from .util import ctor_wiring
     for cls in ("PPO", "A2C", "REINFORCE", "DQN", "SAC"):
